@@ -20,6 +20,8 @@ func main() {
 		os.Exit(runStoreReplay(os.Args[2:]))
 	case "archive-replay":
 		os.Exit(runArchiveReplay(os.Args[2:]))
+	case "index-replay":
+		os.Exit(runIndexReplay(os.Args[2:]))
 	case "hashfuzz":
 		os.Exit(runHashFuzz(os.Args[2:]))
 	case "reader-replay":
